@@ -135,6 +135,11 @@ def check(cx):
                         per_field.append(field_variants(it, st, meth, tols, fld, sv.fields[k], ov.fields[k], adts))
                     # recognise spelled-out element-wise comparisons and replace them by tokens
                     R2 = expand_literal_arrays(R)
+                    # a search that finds no counter-example is a universal statement: found(s, ι, Q) = ¬∀ι ¬Q
+                    from ..terms import mk_not
+                    fm = {t0: ('not', ('all', t0[1], t0[2], mk_not(t0[3]))) for t0 in subterms(R2) if t0[0] == 'found'}
+                    if fm:
+                        R2 = subst_term(R2, fm)
                     links = []
                     for k, fld in enumerate(fields):
                         for formula, desc, em in per_field[k]:
